@@ -25,6 +25,9 @@ def _shared(ctx):
     # keys of AGG_SIG conditions are accepted only through the checked decoder (shared with C05.4)
     from . import c05
     c05.c05_4(ctx, R="C01.2")
+    # the amount suffix of the reported AGG_SIG_*AMOUNT messages is the canonical integer form (ladder shared with C11.1 / C05.1)
+    from . import c11
+    c11.ladder(ctx, "chia_consensus::make_aggsig_final_message::u64_to_bytes", "u64_to_bytes", rule="C01.2")
 
 
 def run(ctx):
